@@ -106,6 +106,17 @@ CHECKS = {
               "<= max_tx + 1; non-trivial = history with >=2 data calls in which a headers callback fired"),
         assumptions=STREAM_ASSUME,
     ),
+    "C11": dict(
+        bins=["c11"], replay_bin="c11", campaigns=lambda tier, seed: [dict(name="c11", bin="c11", shards=16, timeout=3000)], level="exploration",
+        rule=("rapidcheck trigger cases, 13 triggers (T-E chunked + C-L, multiple C-L equal/different, folded C-L, chunked below HTTP/1.1, unparseable C-L, T-E without "
+              "a chunked token, target host != Host, ports differ, missing Host on 1.1, 15 kinds of invalid host in the target or in Host, response T-E + C-L, response "
+              "multiple C-L), each in a random spelling: header order permuted, name case, SP/HT around values, T-E token lists with neighbours and look-alikes "
+              "(chunkedx, chunked;q=1), filler headers, CRLF or LF, 10 personalities, random cuts or one byte per call. Oracle: expected indicator bit at the headers "
+              "callback and at completion; chunked framing wins (coding == CHUNKED, delivered body == chunk-decoded body). Non-trivial = trigger delivered in >= 2 pieces; "
+              "distinct by (bytes, cuts)"),
+        assumptions=["one-directional as the property states: absence of a flag on trigger-free messages is not asserted",
+                     "'unparseable' Content-Length = no digits or an overflowing number (libhtp skips leading junk such as '-')"],
+    ),
     "C12": dict(
         bins=["c12"], replay_bin="c12", campaigns=lambda tier, seed: [dict(name="c12", bin="c12", shards=16, timeout=2400)], level="exploration",
         rule=("every string over the 14 bytes {/ . % u \\ 2 f 5 c 0 A NUL C0 AF} up to length 4 (thorough 5) x all 768 points of the path-decoder switch lattice "
